@@ -154,6 +154,42 @@ def _lin(e, atoms, ops):
     return None
 
 
+def _lin_env(e, env, ops):
+    """like _lin, but names stand for linear forms already computed"""
+    from fractions import Fraction
+
+    def comb(a, b, sg=1):
+        out = dict(a)
+        for k, v in b.items():
+            out[k] = out.get(k, 0) + sg * v
+        return {k: v for k, v in out.items() if v != 0}
+    if isinstance(e, ast.Name):
+        return dict(env[e.id]) if e.id in env else None
+    if isinstance(e, ast.UnaryOp) and isinstance(e.op, ast.USub):
+        a = _lin_env(e.operand, env, ops)
+        return None if a is None else {k: -v for k, v in a.items()}
+    if isinstance(e, ast.BinOp) and isinstance(e.op, (ast.Add, ast.Sub)):
+        a, b = _lin_env(e.left, env, ops), _lin_env(e.right, env, ops)
+        return None if a is None or b is None else comb(a, b, 1 if isinstance(e.op, ast.Add) else -1)
+    if isinstance(e, ast.BinOp) and isinstance(e.op, ast.Mult):
+        for c, x in ((e.left, e.right), (e.right, e.left)):
+            if isinstance(c, ast.Constant) and isinstance(c.value, (int, float)) and not isinstance(c.value, bool):
+                a = _lin_env(x, env, ops)
+                return None if a is None else {k: v * Fraction(c.value) for k, v in a.items() if v * Fraction(c.value) != 0}
+    if isinstance(e, ast.Call) and src(e.func) in ops and len(e.args) == 1 and not e.keywords:
+        a = _lin_env(e.args[0], env, ops)
+        if a is None:
+            return None
+        out = {}
+        for k, v in a.items():
+            if not isinstance(k, str):
+                return None
+            for o_, w in ops[src(e.func)].items():
+                out[(o_, k)] = out.get((o_, k), 0) + v * w
+        return {k: v for k, v in out.items() if v != 0}
+    return None
+
+
 def r18_3(ctx, m):
     """assembly of the linear residual: a metric-distributed right-hand side, solved with that metric at the same point"""
     from fractions import Fraction
@@ -321,64 +357,89 @@ def sampling_enabler_assembly(ctx, m, rid):
         src(d0[0].value.args[0]) == sd.params()[1]
     ctx.check(rid, key, okd, "; ".join(src(s_) for s_ in tb), sd, trys[0])
     hb = handlers[0].body
-    ifs = [st for st in hb if isinstance(st, ast.If) and "start_from_zero" in src(st.test)]
-    if len(ifs) != 1:
+    from ..util import strip_not
+
+    def paths(stmts, zero):
+        """straight-line statement list of the handler for start_from_zero = zero"""
+        out = []
+        for st in stmts:
+            if isinstance(st, ast.If) and "start_from_zero" in src(st.test):
+                _, pol = strip_not(st.test)
+                take = st.body if (zero == pol) else st.orelse
+                out += paths(take, zero)
+            elif isinstance(st, ast.If):
+                if "from_inverse" in src(st.test):
+                    continue  # the refusal of forward sampling
+                out.append(st)
+            else:
+                out.append(st)
+        return out
+    if not any(isinstance(st, ast.If) and "start_from_zero" in src(st.test) for st in hb):
         ctx.und(rid, f"{sd.key}::iterative path", "start_from_zero branch not found", sd)
         return
-
-    def branch(body, label):
-        draws = {}
-        for st in body:
-            if isinstance(st, ast.Assign) and isinstance(st.value, ast.Call) and call_name(st.value) == "draw_sample" and isinstance(st.targets[0], ast.Name):
-                fi_ = kwv(st.value, "from_inverse", 0)
-                draws[st.targets[0].id] = (src(st.value.func.value), fi_ in ("True",))
-        qe = [st for st in body if isinstance(st, ast.Assign) and isinstance(st.value, ast.Call) and call_name(st.value) == "QuadraticEnergy"]
+    for zero, label in ((True, "start_from_zero: right-hand side with covariance L+P, CG starts at 0 with the matching gradient"),
+                        (False, "default: s ~ P^-1, n ~ L, b = P s + n, start at s with gradient L s - n")):
         key_ = f"{sd.key}::{label}"
-        if len(qe) != 1:
-            ctx.und(rid, key_, "QuadraticEnergy construction not found", sd)
-            return None
-        q = qe[0].value
-        return draws, q, key_, qe[0]
-    # start from zero: b ~ L+P, x0 = 0
-    from ..util import strip_not
-    _, pol = strip_not(ifs[0].test)
-    zero_body, dflt_body = (ifs[0].body, ifs[0].orelse) if pol else (ifs[0].orelse, ifs[0].body)
-    r_ = branch(zero_body, "start_from_zero: b drawn from L+P, CG starts at 0*b")
-    if r_:
-        draws, q, key_, st_ = r_
-        bn = src(q.args[2]) if len(q.args) > 2 else None
-        okz = draws.get(bn) == ("self._op", False) and src(q.args[1]) == "self._op" and _lin(q.args[0], {bn: "b"}, {}) == {} and not q.keywords
-        ctx.check(rid, key_, okz, src(q), sd, st_)
-    r_ = branch(dflt_body, "default: s ~ P^-1, n ~ L, b = P s + n, start at s with gradient L s - n")
-    if r_:
-        draws, q, key_, st_ = r_
-        sn = [k for k, v in draws.items() if v == ("self._prior", True)]
-        nj = [k for k, v in draws.items() if v == ("self._likelihood", False)]
-        okd = len(sn) == 1 and len(nj) == 1 and len(draws) == 2
-        if not okd:
-            ctx.bad(rid, key_, f"draws {draws}: expected one draw from the inverse prior metric and one from the likelihood metric", sd, st_)
-        else:
-            atoms = {sn[0]: "s", nj[0]: "n"}
-            bdef = [st for st in dflt_body if isinstance(st, ast.Assign) and len(q.args) > 2 and src(st.targets[0]) == src(q.args[2])]
-            bl = _lin(bdef[0].value, atoms, ops) if len(bdef) == 1 else None
-            x0 = _lin(q.args[0], atoms, ops)
-            g = [k.value for k in q.keywords if k.arg == "_grad"]
-            gl = _lin(g[0], atoms, ops) if g else None
-            want_b = {("P", "s"): Fraction(1), "n": Fraction(1)}
-            det = f"b = {bl}; x0 = {x0}; _grad = {gl}"
-            if bl is None or x0 is None or (g and gl is None):
-                ctx.und(rid, key_, det, sd, st_)
-            else:
-                # gradient of 1/2 x^T M x - b^T x at x0: M x0 - b
-                mx = {}
-                for k, v in x0.items():
-                    for o_ in ("L", "P"):
-                        mx[(o_, k)] = mx.get((o_, k), 0) + v
-                for k, v in bl.items():
-                    mx[k] = mx.get(k, 0) - v
-                mx = {k: v for k, v in mx.items() if v != 0}
-                ctx.check(rid, key_, bl == want_b and src(q.args[1]) == "self._op" and x0 == {"s": Fraction(1)} and (not g or gl == mx),
-                          det + f"; M x0 - b = {mx}", sd, st_)
+        env, kinds, qcall, qst = {}, {}, None, None
+        try:
+            for st in paths(hb, zero):
+                if not (isinstance(st, ast.Assign) and len(st.targets) == 1 and isinstance(st.targets[0], ast.Name)):
+                    continue
+                nm, v = st.targets[0].id, st.value
+                if isinstance(v, ast.Call) and call_name(v) == "draw_sample" and isinstance(v.func, ast.Attribute):
+                    fi_ = kwv(v, "from_inverse", 0)
+                    atom = f"d{len(kinds)}"
+                    kinds[atom] = (src(v.func.value), fi_ == "True")
+                    env[nm] = {atom: Fraction(1)}
+                elif isinstance(v, ast.Call) and call_name(v) == "QuadraticEnergy":
+                    qcall, qst = v, st
+                    break
+                else:
+                    names = {k: k for k in env}
+                    lf = _lin_env(v, env, ops)
+                    if lf is not None:
+                        env[nm] = lf
+                    else:
+                        env.pop(nm, None)
+            if qcall is None:
+                ctx.und(rid, key_, "QuadraticEnergy construction not found", sd)
+                continue
+            x0 = _lin_env(qcall.args[0], env, ops)
+            b = _lin_env(qcall.args[2], env, ops) if len(qcall.args) > 2 else None
+            g = [k.value for k in qcall.keywords if k.arg == "_grad"]
+            gl = _lin_env(g[0], env, ops) if g else None
+            if src(qcall.args[1]) != "self._op" or x0 is None or b is None or (g and gl is None):
+                ctx.und(rid, key_, f"x0 = {x0}; b = {b}; _grad = {gl}", sd, qst)
+                continue
+            # covariance of b: sum over independent draws; (L+P)-distributed iff b = one draw from L+P, or P s + n with s ~ P^-1 and n ~ L
+            def cov_ok(b):
+                items = sorted(b.items(), key=str)
+                if len(items) == 1 and isinstance(items[0][0], str) and kinds.get(items[0][0]) == ("self._op", False) and abs(items[0][1]) == 1:
+                    return True
+                if len(items) == 2:
+                    plain = [(k, v) for k, v in items if isinstance(k, str)]
+                    appl = [(k, v) for k, v in items if not isinstance(k, str)]
+                    if len(plain) == 1 and len(appl) == 1 and abs(plain[0][1]) == 1 and abs(appl[0][1]) == 1:
+                        return kinds.get(plain[0][0]) == ("self._likelihood", False) and appl[0][0][0] == "P" and kinds.get(appl[0][0][1]) == ("self._prior", True)
+                return False
+            mx = {}
+            for k, v in x0.items():
+                if not isinstance(k, str):
+                    mx = None
+                    break
+                for o_ in ("L", "P"):
+                    mx[(o_, k)] = mx.get((o_, k), 0) + v
+            if mx is None:
+                ctx.und(rid, key_, f"start value {x0} is not a combination of draws", sd, qst)
+                continue
+            for k, v in b.items():
+                mx[k] = mx.get(k, 0) - v
+            mx = {k: v for k, v in mx.items() if v != 0}
+            det = f"draws {kinds}; b = {b}; x0 = {x0}; _grad = {gl}; (L+P) x0 - b = {mx}"
+            start_ok = (x0 == {}) if zero else True
+            ctx.check(rid, key_, cov_ok(b) and (not g or gl == mx) and start_ok, det, sd, qst)
+        except RecursionError:
+            ctx.und(rid, key_, "not understood", sd)
     rets = [r for r in handlers[0].body if isinstance(r, ast.Return)]
     qes = [st for st in ast.walk(handlers[0]) if isinstance(st, ast.Assign) and isinstance(st.value, ast.Call) and call_name(st.value) == "QuadraticEnergy"]
     en_names = {src(st.targets[0]) for st in qes}
@@ -398,3 +459,102 @@ _run_c18 = run
 def run(ctx):  # noqa: F811
     _run_c18(ctx)
     r18_3(ctx, ctx.model)
+
+
+def r18_4(ctx, m):
+    """option threading: the point-estimate split is the same in every helper of one sampling call"""
+    ctx.rule("R18.4", "nifty.re.evi: inside a function that takes `point_estimates`, every call or partial binding of a module function "
+                      "that also takes `point_estimates` (draw_linear_residual, sample_likelihood, _ham_metric, the nonlinear residual "
+                      "helpers, _process_point_estimate) and every likelihood.freeze(...) receives that same value - a helper that "
+                      "silently works on the full parameter tree draws different noise / solves a different system", floor=12)
+    mod = m.module(EVI)
+    takers = {fi.name: fi for fi in mod.all_functions if "point_estimates" in fi.params()}
+    for fi in mod.all_functions:
+        if "point_estimates" not in fi.params():
+            continue
+        ctx.saw_func(fi)
+        for c in walk_no_nested(fi.node):
+            if not isinstance(c, ast.Call):
+                continue
+            target, args, kws = None, None, None
+            nm = call_name(c)
+            if nm in ("partial", "Partial") and c.args:
+                inner = c.args[0]
+                # partial(jit(F, ...), a, b) / partial(F, a, b)
+                if isinstance(inner, ast.Call) and inner.args and isinstance(inner.args[0], ast.Name):
+                    inner = inner.args[0]
+                if isinstance(inner, ast.Name) and inner.id in takers:
+                    target, args, kws = takers[inner.id], c.args[1:], c.keywords
+                    partial_call = True
+            elif isinstance(c.func, ast.Name) and c.func.id in takers and c.func.id != fi.name:
+                target, args, kws = takers[c.func.id], c.args, c.keywords
+                partial_call = False
+            elif nm == "freeze" and isinstance(c.func, ast.Attribute):
+                kw = {k.arg: src(k.value) for k in c.keywords}
+                key = f"{fi.key}::`{short(c, 60)}` freezes with the function's point_estimates"
+                ctx.check("R18.4", key, kw.get("point_estimates") == "point_estimates" or (c.args and src(c.args[0]) == "point_estimates"), str(kw), fi, c)
+                continue
+            if target is None:
+                continue
+            tp = target.params()
+            pos_idx = tp.index("point_estimates")
+            kwonly = {a.arg for a in target.node.args.kwonlyargs}
+            given = None
+            for k in kws:
+                if k.arg == "point_estimates":
+                    given = src(k.value)
+            if given is None and "point_estimates" not in kwonly and len(args) > pos_idx:
+                given = src(args[pos_idx])
+            key = f"{fi.key}::`{short(c, 60)}` passes point_estimates on to {target.name}"
+            if given is None and partial_call and "point_estimates" not in kwonly and len(args) <= pos_idx:
+                # bound later by the caller of the partial: positional slots before it must then be filled there too
+                ctx.und("R18.4", key, "slot left open by the partial binding", fi, c)
+            elif given is None:
+                ctx.bad("R18.4", key, f"{target.name} falls back to its default `point_estimates` (the full parameter tree)", fi, c)
+            else:
+                ctx.check("R18.4", key, given == "point_estimates", f"receives `{given}`", fi, c)
+
+
+def r18_5(ctx, m):
+    """classic geometric sampling: the likelihood's sampling dtype reaches the white-noise draw"""
+    ctx.rule("R18.5", "classic draw_samples (geometric branch): the sampling dtype returned by get_transformation() is the dtype of "
+                      "the unit covariance sandwiched with the transformation's Jacobian (ScalingOperator(target, 1., dtype) as the "
+                      "cheese of SandwichOperator.make(jac, .)) - a fixed real dtype draws real-only noise for complex data", floor=1)
+    fi = m.func(KL, "draw_samples")
+    ctx.saw_func(fi)
+    unp = [st for st in walk_no_nested(fi.node) if isinstance(st, ast.Assign) and isinstance(st.targets[0], ast.Tuple) and len(st.targets[0].elts) == 2
+           and isinstance(st.value, ast.Name)]
+    trs = [st for st in walk_no_nested(fi.node) if isinstance(st, ast.Assign) and isinstance(st.value, ast.Call) and call_name(st.value) == "get_transformation"]
+    key = f"{fi.key}::dtype of the likelihood noise"
+    if len(trs) != 1:
+        ctx.und("R18.5", key, "get_transformation call not found", fi)
+        return
+    trn = src(trs[0].targets[0])
+    unp = [st for st in unp if st.value.id == trn]
+    if len(unp) != 1:
+        ctx.und("R18.5", key, "unpacking of the transformation not found", fi)
+        return
+    dtn = src(unp[0].targets[0].elts[0])
+    sand = [c for c in walk_no_nested(fi.node) if isinstance(c, ast.Call) and src(c.func) == "SandwichOperator.make" and len(c.args) == 2]
+    if len(sand) != 1 or not isinstance(sand[0].args[1], ast.Name):
+        ctx.und("R18.5", key, "sandwich construction not found", fi)
+        return
+    cheese = [st for st in walk_no_nested(fi.node) if isinstance(st, ast.Assign) and src(st.targets[0]) == sand[0].args[1].id]
+    if len(cheese) != 1 or not (isinstance(cheese[0].value, ast.Call) and call_name(cheese[0].value) == "ScalingOperator"):
+        ctx.und("R18.5", key, "cheese is not a ScalingOperator binding", fi)
+        return
+    c = cheese[0].value
+    dt = c.args[2] if len(c.args) > 2 else next((k.value for k in c.keywords if k.arg == "sampling_dtype"), None)
+    if dt is None:
+        ctx.bad("R18.5", key, f"`{src(c)}` has no sampling dtype", fi, c)
+    else:
+        ctx.check("R18.5", key, src(dt) == dtn, f"`{src(c)}`: dtype `{src(dt)}`, the transformation's is `{dtn}`", fi, c)
+
+
+_run_c18b = run
+
+
+def run(ctx):  # noqa: F811
+    _run_c18b(ctx)
+    r18_4(ctx, ctx.model)
+    r18_5(ctx, ctx.model)
